@@ -54,13 +54,13 @@ def sprtEta (N : Option Nat) (u eta : Rat) (x : List Rat) (i : Nat) : Rat :=
   | some n => min u (((n : Rat) * eta - S x i) / ((n : Rat) - ((i : Rat) + 1) + 1))
   | none => eta
 
-/-- SPRT statistic: `T_0 = 1`,
+/-- SPRT statistic (with the alternative not below the null mean: `max(eta_j, mu_j)`): `T_0 = 1`,
 `T_{j+1} = T_j · [x eta/mu + (u−x)(u−eta)/(u−mu)]/u` with `x, eta, mu` those of draw `j+1` -/
 def sprtT (N : Option Nat) (u t eta : Rat) (x : List Rat) : Nat → Rat
   | 0 => 1
   | j + 1 => sprtT N u t eta x j *
-      ((obs x j * sprtEta N u eta x j / sprtMu N t x j
-        + (u - obs x j) * (u - sprtEta N u eta x j) / (u - sprtMu N t x j)) / u)
+      ((obs x j * max (sprtEta N u eta x j) (sprtMu N t x j) / sprtMu N t x j
+        + (u - obs x j) * (u - max (sprtEta N u eta x j) (sprtMu N t x j)) / (u - sprtMu N t x j)) / u)
 
 /-- `np.isclose(a, b, rtol, atol)` on rationals -/
 def close (a b rtol atol : Rat) : Prop := |a - b| ≤ atol + rtol * |b|
@@ -237,9 +237,9 @@ theorem sprtMu_eq (cfg : Cfg) (x : List Rat) (i : Nat) :
     push_cast
     rfl
 
-theorem sprtEt_eq (cfg : Cfg) (x : List Rat) (i : Nat) :
-    C11.sprtEt cfg x i = Spec.sprtEta cfg.N cfg.u (C11.sprtEta cfg) x i := by
-  unfold C11.sprtEt Spec.sprtEta
+theorem sprtEt0_eq (cfg : Cfg) (x : List Rat) (i : Nat) :
+    C11.sprtEt0 cfg x i = Spec.sprtEta cfg.N cfg.u (C11.sprtEta cfg) x i := by
+  unfold C11.sprtEt0 Spec.sprtEta
   cases cfg.N with
   | none => rfl
   | some n =>
@@ -247,9 +247,16 @@ theorem sprtEt_eq (cfg : Cfg) (x : List Rat) (i : Nat) :
     push_cast
     rfl
 
+theorem sprtEt_eq (cfg : Cfg) (x : List Rat) (i : Nat) :
+    C11.sprtEt cfg x i =
+      max (Spec.sprtEta cfg.N cfg.u (C11.sprtEta cfg) x i) (Spec.sprtMu cfg.N cfg.t x i) := by
+  unfold C11.sprtEt
+  rw [sprtEt0_eq, sprtMu_eq]
+
 theorem sprtT_eq (N : Option Nat) (u t eta : Rat) (x : List Rat) (k : Nat) :
     Spec.sprtT N u t eta x k =
-      prodTo (fun i => sprtPhi u (Spec.obs x i) (Spec.sprtEta N u eta x i) (Spec.sprtMu N t x i)) k := by
+      prodTo (fun i => sprtPhi u (Spec.obs x i) (max (Spec.sprtEta N u eta x i) (Spec.sprtMu N t x i))
+        (Spec.sprtMu N t x i)) k := by
   induction k with
   | zero => rfl
   | succ k ih => rw [Spec.sprtT, prodTo, ih]; rfl
@@ -271,7 +278,7 @@ theorem sprtTerms_regular (cfg : Cfg) (x : List Rat) (hfit : FitsN cfg.N x.lengt
     (XR.cumprod (sprtFactors cfg x))[j]? =
       some (XR.fin (Spec.sprtT cfg.N cfg.u cfg.t (C11.sprtEta cfg) x (j + 1))) := by
   have hfac : ∀ i ≤ j, (sprtFactors cfg x)[i]? =
-      some (XR.fin ((fun i => sprtPhi cfg.u (Spec.obs x i) (Spec.sprtEta cfg.N cfg.u (C11.sprtEta cfg) x i)
+      some (XR.fin ((fun i => sprtPhi cfg.u (Spec.obs x i) (max (Spec.sprtEta cfg.N cfg.u (C11.sprtEta cfg) x i) (Spec.sprtMu cfg.N cfg.t x i))
         (Spec.sprtMu cfg.N cfg.t x i)) i)) := by
     intro i hi
     obtain ⟨a, ha⟩ := getElem?_some_of_lt (lt_of_le_of_lt hi hj)
